@@ -54,7 +54,25 @@ func c17PickEmbed(t *rapid.T, ev *evProp, gi *GroupInfo) {
 			n = rapid.IntRange(0, el+8).Draw(t, "dlen.any")
 		}
 		data = make([]byte, n)
-		copy(data, rapid.SliceOfN(rapid.Byte(), n, n).Draw(t, "data"))
+		switch rapid.SampledFrom([]string{"random", "random", "random", "all-ff", "all-zero", "ff-prefix", "zero-prefix"}).Draw(t, "dkind") {
+		case "random":
+			copy(data, rapid.SliceOfN(rapid.Byte(), n, n).Draw(t, "data"))
+		case "all-ff":
+			for i := range data {
+				data[i] = 0xff
+			}
+		case "all-zero":
+		case "ff-prefix":
+			copy(data, rapid.SliceOfN(rapid.Byte(), n, n).Draw(t, "data"))
+			for i := 0; i < n && i < rapid.IntRange(1, 8).Draw(t, "ffn"); i++ {
+				data[i] = 0xff
+			}
+		case "zero-prefix":
+			copy(data, rapid.SliceOfN(rapid.Byte(), n, n).Draw(t, "data"))
+			for i := 0; i < n && i < rapid.IntRange(1, 8).Draw(t, "zn"); i++ {
+				data[i] = 0
+			}
+		}
 	}
 	what := "Pick"
 	if embed {
